@@ -1039,6 +1039,10 @@ func (s *Sim) pauseLanded() {
 func (s *Sim) envResult(m *txMeta) {
 	op := m.Op
 	e := s.EnvM
+	if op.K == "hyptoken" {
+		s.Stats.Count("hyperlane_tokens_created_in_run")
+		return
+	}
 	switch op.Msg {
 	case "FTFPause":
 		e.FTFPaused = true
